@@ -18,9 +18,9 @@ REPO_TAG = "" if REPO == "/repo" else "-" + hashlib.sha256(REPO.encode()).hexdig
 
 VARIANTS = {
     # name: (cxx flags, link flags)
-    "O1": ("-O1 -g0", ""),
-    "asan": ("-O1 -g -fsanitize=address,undefined -fno-sanitize-recover=undefined -fno-omit-frame-pointer", "-fsanitize=address,undefined"),
-    "tsan": ("-O1 -g -fsanitize=thread", "-fsanitize=thread"),
+    "O1": ("-O1 -g0 -DNDEBUG", ""),
+    "asan": ("-O1 -g -DNDEBUG -fsanitize=address,undefined -fno-sanitize-recover=undefined -fno-omit-frame-pointer", "-fsanitize=address,undefined"),
+    "tsan": ("-O1 -g -DNDEBUG -fsanitize=thread", "-fsanitize=thread"),
 }
 INCS = ["src", "src/phreeqcpp", "src/phreeqcpp/common", "src/phreeqcpp/PhreeqcKeywords"]
 
@@ -80,7 +80,10 @@ def build_lib(variant="O1"):
     cxx, _ = VARIANTS[variant]
     bdir = os.path.join(CACHE, "build-" + variant + REPO_TAG)
     with flock("build-" + variant + REPO_TAG):
-        if not os.path.exists(os.path.join(bdir, "build.ninja")):
+        want = "CMAKE_CXX_FLAGS:STRING=%s -D%s" % (cxx, GUARD)
+        cachef = os.path.join(bdir, "CMakeCache.txt")
+        stale = os.path.exists(cachef) and want not in open(cachef).read()
+        if stale or not os.path.exists(os.path.join(bdir, "build.ninja")):
             os.makedirs(bdir, exist_ok=True)
             rc, out, err = sh(["cmake", "-G", "Ninja", "-S", REPO, "-B", bdir, "-DCMAKE_BUILD_TYPE=None",
                                "-DCMAKE_CXX_FLAGS=%s -D%s" % (cxx, GUARD), "-DBUILD_TESTING=OFF",
